@@ -8,7 +8,6 @@ import (
 	"strings"
 	"testing"
 
-	vmcommon "github.com/ElrondNetwork/elrond-vm-common"
 	"pgregory.net/rapid"
 )
 
@@ -52,7 +51,7 @@ func decodedLedger(s *Shard) string {
 		n := 0
 		for _, sk := range sortedKeys(a.Storage) {
 			v := a.Storage[sk]
-			if strings.HasPrefix(sk, pfxESDT) && len(v) == 2 && vmcommon.IsSystemAccountAddress(a.Addr) {
+			if strings.HasPrefix(sk, pfxESDT) && len(v) == 2 && refIsSystemAccount(a.Addr) {
 				if v[0]&1 != 0 { // a pause flag; an entry that says "not paused" is the same as no entry
 					line += sprintf(" [%q]=paused", sk)
 					n++
@@ -137,6 +136,7 @@ func runHistories(t *testing.T, cfg historyCfg) {
 		histories++
 		st.AddExtra("histories", 1)
 		cut := false
+		resyncs := 0
 
 		var shadow *Engine
 		shadowAt := -1
@@ -204,14 +204,7 @@ func runHistories(t *testing.T, cfg historyCfg) {
 					st.Sample(strings.SplitN(key, "|", 2)[0], renderCall(rec))
 				}
 			}
-			var mine, other []Clause
-			for _, cl := range rec.Clauses {
-				if hasProp(cl, props) {
-					mine = append(mine, cl)
-				} else {
-					other = append(other, cl)
-				}
-			}
+			mine, other, resynced, stop := afterRecord(e, rec, props, &resyncs)
 			for _, cl := range mine {
 				if known[cl.Sig] {
 					st.KnownHit(cl.Sig)
@@ -222,15 +215,20 @@ func runHistories(t *testing.T, cfg historyCfg) {
 				failRapid(rt, st, cfg.prop, "history", Trace{Spec: spec, Ops: e.Ops}, cl.Sig, cl.Msg)
 			}
 			if len(other) > 0 {
-				// another property's statement is broken here; the world no longer matches the model, so this history
-				// stops (that property's own check reports it)
-				st.AddExtra("cut_other_property", 1)
-				st.Label("cut/" + other[0].Props[0] + "/" + other[0].Sig)
-				cut = true
+				// another property's statement is broken here (that property's own check reports it): the model is
+				// rebuilt from the ledger and the history goes on, or stops when the ledger cannot be abstracted
+				if resynced {
+					st.AddExtra("resynced_other_property", 1)
+				} else {
+					st.AddExtra("cut_other_property", 1)
+				}
+				st.Label("foreign/" + other[0].Props[0] + "/" + other[0].Sig)
 			}
 			if rec.Lost {
 				st.AddExtra("model_lost", 1)
 				st.Label("model-lost/" + rec.Call.Fn)
+			}
+			if stop {
 				cut = true
 			}
 			return !cut
@@ -267,17 +265,17 @@ func replayHistory(props []string, setup func(e *Engine, st *Stats)) func(kind s
 		if setup != nil {
 			setup(e, NewStats(props[0]))
 		}
+		resyncs := 0
 		for _, op := range tr.Ops {
 			rec := e.Apply(op)
 			if rec == nil {
 				continue
 			}
-			for _, cl := range rec.Clauses {
-				if hasProp(cl, props) {
-					return cl.Sig, cl.Msg
-				}
+			mine, _, _, stop := afterRecord(e, rec, props, &resyncs)
+			if len(mine) > 0 {
+				return mine[0].Sig, mine[0].Msg
 			}
-			if rec.Lost || len(rec.Clauses) > 0 {
+			if stop {
 				break
 			}
 		}
